@@ -141,6 +141,12 @@ func c11Run(c *core.Ctx) *core.Result {
 			if R.P(1, 3) {
 				lv.Exc = refs.GenPatterns(R, 2, true, curPaths...)
 			}
+			if R.P(1, 2) {
+				// next to an include list of the caller: the resolved targets
+				// are appended to it, the order of the caller's patterns stays
+				lv.Inc = refs.GenPatterns(R, 3, true, curPaths...)
+				r.Count("follow_paths_next_to_include_patterns", 1)
+			}
 		}
 		opt := &fsutil.FilterOpt{IncludePatterns: lv.Inc, ExcludePatterns: lv.Exc, FollowPaths: lv.Follow}
 		var mapSalt uint64
@@ -162,7 +168,10 @@ func c11Run(c *core.Ctx) *core.Result {
 				r.Inconclusive = "FollowLinks: " + err.Error()
 				return r
 			}
-			inc = tg
+			inc = append(append([]string{}, lv.Inc...), tg...)
+			if len(inc) == 0 {
+				inc = nil
+			}
 		}
 		nv, err := fsutil.NewFilterFS(view, opt)
 		var dropFn func(it refs.Item) bool
